@@ -215,11 +215,21 @@ impl<'a> Planner<'a> {
                 .iter()
                 .all(|input_id| resolved_values.contains(*input_id));
 
+            // Values captured by the operator's subgraphs which have no node
+            // in this graph come from an ancestor graph. They are not listed
+            // by `operator_dependencies` and are never available here.
+            let has_unresolved_captures = op_node
+                .capture_names()
+                .any(|name| self.graph.get_node_id(name).is_none());
+
             // Prune op if:
             //
             // - The output varies on each run (`Random*`)
             // - We are missing a required input
-            let prune_op = !op_node.operator().is_deterministic() || !all_inputs_available;
+            // - A subgraph captures a value from outside this graph
+            let prune_op = !op_node.operator().is_deterministic()
+                || !all_inputs_available
+                || has_unresolved_captures;
 
             if prune_op {
                 for input_id in all_inputs {
